@@ -47,7 +47,7 @@ func (r *Run) curveTableVerifier(P string) map[string]curveRow {
 			}
 		}
 		ret := p[len(p)-1].Instrs[len(p[len(p)-1].Instrs)-1].(*ssa.Return)
-		al, ok := ret.Results[0].(*ssa.Alloc)
+		al, ok := core.RetOp(ret, 0).(*ssa.Alloc)
 		if !ok {
 			if key != "" {
 				out[key] = curveRow{KeySize: "nil"}
@@ -109,7 +109,7 @@ func (r *Run) hasherTableSigner(P string) (map[string]string, string) {
 			}
 		}
 		ret := p[len(p)-1].Instrs[len(p[len(p)-1].Instrs)-1].(*ssa.Return)
-		out[key] = ff.TB.Of(resolveOnPath(ret.Results[0], p)).String()
+		out[key] = ff.TB.Of(resolveOnPath(core.RetOp(ret, 0), p)).String()
 	}
 	return out, problems
 }
